@@ -169,7 +169,7 @@ def _run_lin(case):
 # --------------------------------------------------------------------------- feature models
 def _pool_feat(tier):
     # (Dx, Dy, Dk, Rq, N)
-    base = [(1, 1, 1, 1, 1), (1, 2, 2, 2, 2), (2, 1, 2, 1, 1), (2, 2, 3, 2, 2), (1, 3, 3, 1, 3), (2, 2, 1, 3, 1), (3, 2, 4, 2, 2), (4, 3, 5, 1, 1), (1, 2, 5, 2, 1)]
+    base = [(1, 1, 1, 1, 1), (1, 2, 2, 2, 2), (2, 1, 2, 1, 1), (2, 2, 3, 2, 2), (1, 3, 3, 1, 3), (2, 2, 1, 3, 1), (3, 2, 4, 2, 2), (4, 3, 5, 1, 1), (1, 2, 5, 2, 1), (2, 2, 17, 1, 1), (3, 1, 18, 2, 2)]
     if tier == "thorough":
         base += [(2, 3, 2, 1, 2), (1, 1, 3, 3, 3), (2, 1, 1, 2, 3), (1, 2, 1, 1, 2), (3, 3, 2, 3, 2), (5, 1, 3, 1, 1), (2, 2, 5, 2, 2)]
     return base
